@@ -679,3 +679,94 @@ Theorem alt_loop_guard_tie : forall st : alt_st,
   G.gen_alt_cont (a_count st) MAX_ALTERNATIVES (a_seq st) MAX_VALID_ALTERNATIVES =
   ((a_count st <? MAX_ALTERNATIVES) && (a_seq st - 1 <? MAX_VALID_ALTERNATIVES)).
 Proof. intros. apply gen_alt_cont_spec. Qed.
+
+(* ---------------------------------------------------------------------------------------------- *)
+(* 6. the two stable_sort comparators of transit_data.cpp and the hour slot through which each scan enters   *)
+Lemma fwd_lt_formula a b :
+  fwd_lt a b = ((c_dep a <? c_dep b) || (negb (c_dep a >? c_dep b) &&
+               ((Z.of_nat (c_trip a) <? Z.of_nat (c_trip b)) || (negb (Z.of_nat (c_trip a) >? Z.of_nat (c_trip b)) &&
+                (Z.of_nat (c_seq a) <? Z.of_nat (c_seq b)))))).
+Proof.
+  unfold fwd_lt.
+  destruct (c_dep a <? c_dep b) eqn:E1; [reflexivity|]. destruct (c_dep a >? c_dep b) eqn:E2; [reflexivity|].
+  destruct (Nat.ltb (c_trip a) (c_trip b)) eqn:E3; [lia|]. destruct (Nat.ltb (c_trip b) (c_trip a)) eqn:E4; lia.
+Qed.
+Lemma rev_lt_formula a b :
+  rev_lt a b = ((c_arr a >? c_arr b) || (negb (c_arr a <? c_arr b) &&
+               ((Z.of_nat (c_trip a) >? Z.of_nat (c_trip b)) || (negb (Z.of_nat (c_trip a) <? Z.of_nat (c_trip b)) &&
+                (Z.of_nat (c_seq a) >? Z.of_nat (c_seq b)))))).
+Proof.
+  unfold rev_lt.
+  destruct (c_arr a >? c_arr b) eqn:E1; [reflexivity|]. destruct (c_arr a <? c_arr b) eqn:E2; [reflexivity|].
+  destruct (Nat.ltb (c_trip b) (c_trip a)) eqn:E3; [lia|]. destruct (Nat.ltb (c_trip a) (c_trip b)) eqn:E4; lia.
+Qed.
+
+Definition cmp_args (f : Z -> Z -> Z -> Z -> Z -> Z -> Z -> Z -> bool) (a b : conn) : bool :=
+  f (c_dep a) (c_dep b) (c_arr a) (c_arr b) (Z.of_nat (c_trip a)) (Z.of_nat (c_trip b)) (Z.of_nat (c_seq a)) (Z.of_nat (c_seq b)).
+
+(* the model sorts with the comparators the source writes now (uuid order of trips = order of their identifiers) *)
+Theorem fwd_lt_tie : forall a b, cmp_args G.gen_fwd_lt a b = fwd_lt a b.
+Proof. intros. rewrite fwd_lt_formula. unfold cmp_args, G.gen_fwd_lt. lia. Qed.
+Theorem rev_lt_tie : forall a b, cmp_args G.gen_rev_lt a b = rev_lt a b.
+Proof. intros. rewrite rev_lt_formula. unfold cmp_args, G.gen_rev_lt. lia. Qed.
+
+Ltac Zify.zify_post_hook ::= Z.to_euclidean_division_equations.
+Lemma gen_fwd_entry_hour_spec kdep karr minacc minegr : G.gen_fwd_entry_hour kdep karr minacc minegr = hour_of kdep.
+Proof. unfold G.gen_fwd_entry_hour, hour_of. first [reflexivity | lia]. Qed.
+Lemma gen_fwdall_entry_hour_spec kdep karr minacc minegr : G.gen_fwdall_entry_hour kdep karr minacc minegr = hour_of kdep.
+Proof. unfold G.gen_fwdall_entry_hour, hour_of. first [reflexivity | lia]. Qed.
+Lemma gen_rev_entry_hour_spec kdep karr minacc minegr : G.gen_rev_entry_hour kdep karr minacc minegr = hour_of karr + 1.
+Proof. unfold G.gen_rev_entry_hour, hour_of. first [reflexivity | lia]. Qed.
+Lemma gen_revall_entry_hour_spec kdep karr minacc minegr : G.gen_revall_entry_hour kdep karr minacc minegr = hour_of karr + 1.
+Proof. unfold G.gen_revall_entry_hour, hour_of. first [reflexivity | lia]. Qed.
+Ltac Zify.zify_post_hook ::= idtac.
+
+Lemma fold_left_ext_in {A B} (f g : A -> B -> A) : (forall a b, f a b = g a b) -> forall l a, fold_left f l a = fold_left g l a.
+Proof. intros H l. induction l as [|x l IH]; intros a; cbn [fold_left]; [reflexivity|]. rewrite H. apply IH. Qed.
+
+(* the four scans, entry slot and step function as the source writes them *)
+Definition fwd_scan_code (d : data) (p : params) (k : calc) : outcome fstate :=
+  match fwd_entry (k_set k) (G.gen_fwd_entry_hour (k_dep k) (k_arr k) (k_minAcc k) (k_minEgr k)) with
+  | None => UB U_INDEX
+  | Some i => Ok (fold_left (fwd_step_code d p k) (skipn i (cs_fwd (k_set k))) (fwd_init k))
+  end.
+Definition fwdall_scan_code (d : data) (p : params) (k : calc) : outcome fstate :=
+  match fwd_entry (k_set k) (G.gen_fwdall_entry_hour (k_dep k) (k_arr k) (k_minAcc k) (k_minEgr k)) with
+  | None => UB U_INDEX
+  | Some i => Ok (fold_left (fwdall_step_code d p k) (skipn i (cs_fwd (k_set k))) (fwd_init k))
+  end.
+Definition rev_scan_code (d : data) (p : params) (k : calc) : outcome rstate :=
+  match rev_entry (k_set k) (G.gen_rev_entry_hour (k_dep k) (k_arr k) (k_minAcc k) (k_minEgr k)) with
+  | None => UB U_INDEX
+  | Some i => Ok (fold_left (rev_step_code d p k) (skipn i (cs_rev (k_set k))) (rev_init k))
+  end.
+Definition revall_scan_code (d : data) (p : params) (k : calc) : outcome rstate :=
+  match rev_entry (k_set k) (G.gen_revall_entry_hour (k_dep k) (k_arr k) (k_minAcc k) (k_minEgr k)) with
+  | None => UB U_INDEX
+  | Some i => Ok (fold_left (revall_step_code d p k) (skipn i (cs_rev (k_set k))) (rev_init k))
+  end.
+
+Theorem fwd_scan_tie : forall d p k, fwd_scan_code d p k = fwd_scan d p k false.
+Proof.
+  intros. unfold fwd_scan_code, fwd_scan. rewrite gen_fwd_entry_hour_spec.
+  destruct (fwd_entry (k_set k) (hour_of (k_dep k))) as [i|]; [|reflexivity].
+  f_equal. apply fold_left_ext_in. intros st c. apply fwd_step_tie.
+Qed.
+Theorem fwdall_scan_tie : forall d p k, fwdall_scan_code d p k = fwd_scan d p k true.
+Proof.
+  intros. unfold fwdall_scan_code, fwd_scan. rewrite gen_fwdall_entry_hour_spec.
+  destruct (fwd_entry (k_set k) (hour_of (k_dep k))) as [i|]; [|reflexivity].
+  f_equal. apply fold_left_ext_in. intros st c. apply fwdall_step_tie.
+Qed.
+Theorem rev_scan_tie : forall d p k, rev_scan_code d p k = rev_scan d p k false.
+Proof.
+  intros. unfold rev_scan_code, rev_scan. rewrite gen_rev_entry_hour_spec.
+  destruct (rev_entry (k_set k) (hour_of (k_arr k) + 1)) as [i|]; [|reflexivity].
+  f_equal. apply fold_left_ext_in. intros st c. apply rev_step_tie.
+Qed.
+Theorem revall_scan_tie : forall d p k, revall_scan_code d p k = rev_scan d p k true.
+Proof.
+  intros. unfold revall_scan_code, rev_scan. rewrite gen_revall_entry_hour_spec.
+  destruct (rev_entry (k_set k) (hour_of (k_arr k) + 1)) as [i|]; [|reflexivity].
+  f_equal. apply fold_left_ext_in. intros st c. apply revall_step_tie.
+Qed.
